@@ -159,9 +159,8 @@ theorem envPrepend_lifts_multi (d : Str) (hd : d ≠ []) (hd36 : 36 ∉ d) (appe
   have hflt := split_join_filter_multi d hd oldl hold
   unfold envPrepend
   simp only [startsWith_goodD d v hd hv, endsWith_goodD d v hd hv, henv,
-    expand_no_dollar env v hv.2.2, hsplitv, setEnvI, hflt, Bool.false_eq_true, if_false,
-    Bool.false_and]
-  rw [interp_no_dollar env _ _ hnd]
+    expand_no_dollar env v hv.2.2, interp_no_dollar env _ v hv.2.2, hsplitv, hflt, Bool.false_eq_true,
+    if_false, Bool.false_and]
 
 /-! ## values with several pieces -/
 
@@ -284,9 +283,8 @@ theorem envPrepend_lifts_vals (d : Str) (hd : d ≠ []) (hd36 : 36 ∉ d) (appen
   have hflt := split_join_filter_multi d hd oldl hold
   unfold envPrepend
   simp only [startsWith_join_goodD d hd vals hvne hv, endsWith_join_goodD d hd vals hvne hv, henv,
-    expand_no_dollar env _ hnv, hsplitv, setEnvI, hflt, Bool.false_eq_true, if_false,
+    expand_no_dollar env _ hnv, interp_no_dollar env _ _ hnv, hsplitv, hflt, Bool.false_eq_true, if_false,
     Bool.false_and]
-  rw [interp_no_dollar env _ _ hnd]
 
 /-- single-character corollary in the vocabulary of `GoodPiece` -/
 theorem envPrepend_lifts_vals_single (c : Nat) (hc : c ≠ 36) (append fwd : Bool) (var : Str)
